@@ -25,6 +25,7 @@ class TapMixin:
         self.by_label = {}
         self._auto = 0
         self._sentinel_next = False
+        self._pending_sentinel = None
         self.tap_enabled = True
 
     def tick(self):
@@ -89,17 +90,29 @@ class TapMixin:
             val = san(event.value)
         except AttributeError:
             ok, val = None, '<unavailable>'
-        self.log.append(('P', self.tick(), self.label(event), self.now, self.step_no, ok, val))
+        lb = self.label(event)
+        if self._pending_sentinel is not None and self._pending_sentinel[0] == lb:
+            self._pending_sentinel = None
+        self.log.append(('P', self.tick(), lb, self.now, self.step_no, ok, val))
 
     def schedule(self, event, priority=NORMAL, delay=0):
         if self.tap_enabled:
             kind = self.kind_of(event)
+            now = self.now
             if kind == 'until':
+                # a kernel that routes the numeric run-until stop through schedule(): same occurrence that
+                # run() below has already announced; keep one trigger record, with the due time actually used
                 self._sentinel_next = False
-                self.name(event, 'until@%d' % (self.G + 1))
+                ps = self._pending_sentinel
+                if ps is not None and self.log and self.log[-1][0] == 'T' and self.log[-1][2] == ps[0]:
+                    self.log.pop()
+                    self.G -= 1
+                    self.name(event, ps[0])
+                else:
+                    self.name(event, 'until@%d' % (self.G + 1))
             lb = self.label(event)
-            self.log.append(('T', self.tick(), lb, kind, self.now, delay, int(priority),
-                             self.step_no if self.in_step else None))
+            self.log.append(('T', self.tick(), lb, kind, now, delay, int(priority),
+                             self.step_no if self.in_step else None, now + delay))
             cbs = event.callbacks
             if isinstance(cbs, list) and self._probe not in cbs:
                 cbs.insert(0, self._probe)
@@ -108,12 +121,20 @@ class TapMixin:
     def step(self):
         self.step_no += 1
         self.in_step = True
+        self._sentinel_next = False    # run() places its stop before the first step
         try:
             super().step()
         except EmptySchedule:
             self.step_no -= 1
             raise
         except StopSimulation:
+            ps = self._pending_sentinel
+            if ps is not None and self.now == ps[1] and not (
+                    self.log and self.log[-1][0] == 'P' and self.log[-1][4] == self.step_no):
+                # the numeric run-until stop took effect in this step (it carries no probe when the kernel
+                # places it on the agenda directly at its absolute time)
+                self._pending_sentinel = None
+                self.log.append(('P', self.tick(), ps[0], self.now, self.step_no, True, None))
             raise
         except BaseException as e:
             self.log.append(('X', self.tick(), self.step_no, san(e)))
@@ -124,6 +145,16 @@ class TapMixin:
     def run(self, until=None):
         if until is not None and not isinstance(until, Event):
             self._sentinel_next = True
+            try:
+                at = until if isinstance(until, int) else float(until)
+            except (TypeError, ValueError):
+                at = None
+            if at is not None and at > self.now and self.tap_enabled:
+                # announce the stop occurrence: triggered now, urgent, due at exactly `at`
+                lb = 'until@%d' % (self.G + 1)
+                self._pending_sentinel = (lb, at)
+                self.log.append(('T', self.tick(), lb, 'until', self.now, at - self.now, 0,
+                                 self.step_no if self.in_step else None, at))
         try:
             return super().run(until)
         finally:
